@@ -37,18 +37,21 @@ Contract-abiding source against the model's frame loop (`Delivers`: the source c
   C03G_delivers_ctx           what such a source leaves in the context: bytes of the interleaved blocks, sample count, frame count
   C03G_driver_contract        the whole driver: `Ok(stream)`, frames = model frames (images), STREAMINFO = `finishInfo (foldInfo ..)`,
                               digest of all interleaved blocks, `len_hint` or else the samples delivered
-  NAMED HYPOTHESIS `EncoderFramesOk` (not proved): frames returned by the generated `encode_fixed_size_frame` have no precomputed
-  bitstream, 32-bit frame number, block-size code = `filled_size`, and `count_bits_exact` (C09Gen determines them only up to
-  `frameOfGen`).  Example below: the conclusion holds for `C08Gen.exFrame`.
+  C03G_driver_contract_model_success   ... = the model's `encodeStream` (same stream image `streamImage`, same remaining log) when
+                              the source delivers `blocksOf bs chans` and its length hint is truthful; SUCCESS direction only
+Value of the frames of the generated encoder (was the named hypothesis `EncoderFramesOk`; now proved, Lemmas/GenCount.lean):
+  encode_frame_shape          value-level `encode_frame`: no precomputed bitstream, block-size code of `filled_size`, numbers 0
+  C03G_encoder_frame_ok       a frame returned by `encode_fixed_size_frame` (hypotheses of C09G_encode_fixed_size_frame + a valid log
+                              `OEvent.Ok`): no precomputed bitstream, 32-bit frame number, block size = `filled_size`, `count_bits`
+                              cannot panic (`FrameFits`), and `count_bits` = the hand model's `Frame.count` of its image
 C20 (cargo features; `featPar` is the only feature flag of the generated driver):
   C20G_driver_featPar                     `config.multithread = false`: same function for featPar = true / false (and any `par` entry)
   C20G_driver_nopar_ignores_multithread   featPar = false: the `multithread` switch is ignored
   C20G_driver_par_forwards                featPar = true and the switch set: forwarded to `par::encode_with_fixed_block_size`
-NOT proved here (see notes/driver_design.md): (i) that the generated `MemSource` satisfies `Delivers` for `blocksOf bs chans`
-(deinterleave / `verify_samples` lemmas of C14Gen along the blocks); (ii) `EncoderFramesOk`; (iii) the last step from
-`C03G_driver_contract` to `encodeStream` (`foldInfo` = `assembleInfo` needs `Frame::count_bits` = the model's `Frame.count` for the
-produced frames: `C08G_frame_count` + well-formedness of the frames; `flatMap interleave` of the blocks = `interleave chans` is
-`C01_interleave_blocks`).
+NOT proved here: (i) that the generated `MemSource` (`memOps`) satisfies `Delivers` for `blocksOf bs chans` (only the empty
+source: `C03G_driver_mem_empty`); it needs the deinterleave / `verify_samples` lemmas of C14Gen along the blocks and
+`interleave`-slice lemmas.  (ii) the FAILURE direction of `C03G_driver_contract_model_success` (generated driver panics / `Err`
+exactly where the model returns `none`).
 -/
 import FlacVerif.Gen.Driver
 import FlacVerif.Model.EncodeStream
@@ -57,6 +60,11 @@ import FlacVerif.Theorems.C08Gen
 import FlacVerif.Theorems.C14Gen
 import FlacVerif.Theorems.C18Gen
 import FlacVerif.Theorems.C09Gen
+import FlacVerif.Lemmas.GenCount
+import FlacVerif.Lemmas.ExtrasC09
+import FlacVerif.Lemmas.WrapFrame
+import FlacVerif.Lemmas.WrapStream
+import FlacVerif.Theorems.C09Stream
 namespace FlacVerif
 namespace C03Gen
 open FlacVerif.Gen.Driver
@@ -710,6 +718,197 @@ theorem C03G_driver_mem_empty (featPar : Bool) (par : Gen.Encoder → Gen.Source
 
 
 
+
+/-! ### the Rust-side VALUE of the frames the generated encoder returns -/
+
+section shape
+open Total Strict C09Gen Gen.Coding
+
+/-- what `encode_frame` fixes of the frame it returns beyond its model image: no precomputed bitstream, the block-size code of
+the buffer's `filled_size`, sample number 0 (the offset `encode_fixed_size_frame` passes), frame number 0 -/
+def FrameShape (fb : Gen.Coding.FrameBuf) (f : Gen.Writer.Frame) : Prop :=
+  f.precomputed_bitstream = none ∧
+  f.header.block_size_spec = Gen.Headers.BlockSizeSpec.from_size (fb.filled_size % 65536) ∧
+  f.header.start_sample_number = 0 ∧ f.header.frame_number = 0
+
+/-- **value-level `encode_frame`**: whatever it returns has `FrameShape` (both the independent and the stereo branch). -/
+theorem encode_frame_shape (s1 : List (List Int)) (s2 : List Int) (s3 : Gen.Coding.FrameBuf) (c : Gen.Encoder)
+    (fb : Gen.Coding.FrameBuf) (info : StreamInfo) (log : List OEvent)
+    (hst : StereoBuf s3) (hfb : FbOk fb info.channels) (hn : 1 ≤ fb.filled_size ∧ fb.filled_size < 2 ^ 16)
+    (hch : 1 ≤ info.channels ∧ info.channels ≤ 8) (hb : 1 ≤ info.bps ∧ info.bps ≤ 24)
+    (hx : ∀ ch, ch < info.channels → ∀ x ∈ chanOf fb ch, SubFrame.inRange info.bps x = true)
+    (hmax : c.subframe_coding.prc.max_parameter ≤ 14) (hmo : c.subframe_coding.fixed.max_order + 1 < 2 ^ 64)
+    (hlog : LogFits log) :
+    ∀ r, encode_frame s1 s2 s3 c fb 0 info log = some r → FrameShape fb r.1 := by
+  unfold encode_frame
+  have hm : info.channels % 256 = info.channels := Nat.mod_eq_of_lt (by omega)
+  have hca : C02Hdr.caOfGen (Gen.Headers.ChannelAssignment.Independent info.channels) = .independent info.channels := rfl
+  have hclen : (chansOf fb info.channels).length = info.channels := by simp [chansOf]
+  simp only [C09Gen.bindM_apply, hm]
+  rw [C09G_encode_frame_impl s1 s2 c fb 0 info _ log hn hfb hch.2 hmax hmo (by
+    intro ch hc
+    rw [hca]
+    simp only [ChannelAssignment.bpsOffset, Nat.add_zero]
+    exact ⟨hb.1, by omega, hx ch hc⟩) hlog, hca]
+  cases hec : encodeChannels (subCfgOf c.subframe_coding) (.independent info.channels) info.bps (chansOf fb info.channels) 0 log with
+  | none => intro r h; simp at h
+  | some r0 =>
+    obtain ⟨indep, l1⟩ := r0
+    obtain ⟨hilen, hicnt⟩ := C09.encodeChannels_bound _ (.independent info.channels) info.bps fb.filled_size hn.1 _ 0 log l1 indep (by
+      intro cc hcc
+      simp only [chansOf, List.mem_map, List.mem_range] at hcc
+      obtain ⟨k, hk, rfl⟩ := hcc
+      exact chanOf_length fb info.channels k hfb hk) hec
+    have hsub := encodeChannels_sub _ _ _ _ _ _ _ _ hec
+    simp only [Option.map_some, Option.bind_some]
+    by_cases h2 : info.channels = 2
+    · rw [if_pos h2]
+      rw [hclen, h2] at hilen
+      match indep, hilen, hicnt with
+      | [sl, sr], _, hicnt =>
+        obtain ⟨cl, hcl, hclb⟩ := hicnt 0 (by simp)
+        obtain ⟨cr, hcr, hcrb⟩ := hicnt 1 (by simp)
+        simp only [List.getElem_cons_zero, List.getElem_cons_succ, ChannelAssignment.bpsOffset, Nat.add_zero] at hcl hcr hclb hcrb
+        have hvb : verbatimBits fb.filled_size info.bps < 2 ^ 32 := by
+          unfold verbatimBits
+          have : fb.filled_size * info.bps ≤ 2 ^ 16 * 24 := Nat.mul_le_mul (by omega) hb.2
+          omega
+        rw [C09G_try_stereo_coding s3 s1 s2 c fb _ sl sr none 0 info l1 cl cr hst (h2 ▸ hfb) hn h2 hb
+          (fun ch hc => hx ch (by omega)) hmax hmo (hlog.sub hsub) ⟨hcl, by omega⟩ ⟨hcr, by omega⟩]
+        cases encodeChannels (subCfgOf c.subframe_coding) .midSide info.bps
+            [(List.zipWith midSide (chanOf fb 0) (chanOf fb 1)).map (·.1),
+             (List.zipWith midSide (chanOf fb 0) (chanOf fb 1)).map (·.2)] 0 l1 with
+        | none => intro r h; simp at h
+        | some r2 =>
+          obtain ⟨msSubs, l2⟩ := r2
+          simp only [Option.bind_some]
+          match msSubs with
+          | [] => intro r h; simp at h
+          | [_] => intro r h; simp at h
+          | _ :: _ :: _ :: _ => intro r h; simp at h
+          | [sm, ss] =>
+            intro r h
+            simp only [Option.some.injEq] at h
+            subst h
+            simp [FrameShape, implHeader, Gen.Verify.FrameHeader.set_frame_offset, Gen.Verify.FrameHeader.set_start_sample_number,
+              FrameHeader.from_specs]
+    · rw [if_neg h2]
+      intro r h
+      simp only [C09Gen.pureM_apply, Option.some.injEq] at h
+      subst h
+      simp [FrameShape, implHeader, Gen.Verify.FrameHeader.set_frame_offset, Gen.Verify.FrameHeader.set_start_sample_number,
+        FrameHeader.from_specs]
+
+/-- the generated block-size code of a `u16` size `1 ≤ n` stands for `n`, and reading it back cannot panic -/
+theorem blockSize_fromSize_gen (n : Nat) (h1 : 1 ≤ n) (h2 : n < 2 ^ 16) :
+    Gen.Headers.BlockSizeSpec.block_size (Gen.Headers.BlockSizeSpec.from_size n) = some n ∧
+    Gen.Headers.BlockSizeSpec.block_size_exact (Gen.Headers.BlockSizeSpec.from_size n) = true := by
+  have hfs := C02Hdr.C02H_blockSize_fromSize n (by omega)
+  rw [(C02Hdr.C02H_blockSize_fromSize_exact n (by omega)).2 (by omega), if_pos rfl] at hfs
+  have hb := (Wrap.fromSize_ok n h1 h2 _ hfs).2
+  rw [C02Hdr.C02H_blockSize_blockSize, C02Hdr.bsToGen_ofGen] at hb
+  exact ⟨hb, (C02Hdr.C02H_blockSize_range_exact n (by omega)).2⟩
+
+/-- **the frames of the generated `encode_fixed_size_frame`** (this was the named hypothesis `EncoderFramesOk`): under the
+hypotheses of `C09G_encode_fixed_size_frame` and a valid oracle log (`OEvent.Ok`), a returned frame has no precomputed bitstream,
+a 32-bit frame number, sample number 0, a block-size code standing for the buffer's `filled_size`, `count_bits` that cannot
+panic (`FrameFits`), and `count_bits` IS the hand model's `Frame.count` of its image. -/
+theorem C03G_encoder_frame_ok (vs : Gen.Coding.FrameBuf → Nat → Gen.Verify.VR) (s1 : List (List Int)) (s2 : List Int)
+    (s3 : Gen.Coding.FrameBuf) (c : Gen.Encoder) (fb : Gen.Coding.FrameBuf) (number : Nat) (info : StreamInfo) (log l' : List OEvent)
+    (g : Gen.Writer.Frame)
+    (hst : StereoBuf s3) (hfb : FbOk fb info.channels) (hn : 1 ≤ fb.filled_size ∧ fb.filled_size < 2 ^ 16)
+    (hch : 1 ≤ info.channels ∧ info.channels ≤ 8) (hb : 1 ≤ info.bps ∧ info.bps ≤ 24)
+    (hx : ∀ ch, ch < info.channels → ∀ x ∈ chanOf fb ch, SubFrame.inRange info.bps x = true)
+    (hmax : c.subframe_coding.prc.max_parameter ≤ 14) (hmo : c.subframe_coding.fixed.max_order + 1 < 2 ^ 64)
+    (hrate : info.rate < 2 ^ 32) (hlog : LogFits log) (hlogok : ∀ e ∈ log, e.Ok)
+    (hnum : number < 2 ^ 31) (hcn : fb.samples.length / fb.size = info.channels) (hvs : vs fb info.bps = some true)
+    (h : encode_fixed_size_frame vs s1 s2 s3 c fb number info log = some (some g, l')) :
+    g.precomputed_bitstream = none ∧ g.header.frame_number < 2 ^ 32 ∧ g.header.start_sample_number < 2 ^ 64 ∧
+    Gen.Verify.FrameHeader.block_size g.header = fb.filled_size ∧ FrameFits g ∧
+    (C08Gen.frameOfGen g).count = some (Gen.Writer.Frame.count_bits g) := by
+  -- the model image
+  have himg := C09G_encode_fixed_size_frame vs s1 s2 s3 c fb number info log hst hfb hn hch hb hx hmax hmo hrate hlog hnum hcn hvs
+  rw [h] at himg
+  cases hef : encodeFrame (subCfgOf c.subframe_coding) (stereoCfgOf c.stereo_coding) (chansOf fb info.channels) info.bps info.rate
+      number log with
+  | none => simp [hef] at himg
+  | some rf =>
+    obtain ⟨f, lf⟩ := rf
+    simp only [hef, Option.map_some, Option.some.injEq, Prod.mk.injEq] at himg
+    obtain ⟨hfg, _⟩ := himg
+    -- the value
+    unfold encode_fixed_size_frame at h
+    have hsz : fb.size ≠ 0 := by have := hfb.2.1; omega
+    have hlim : number < (1 <<< 31) % 18446744073709551616 := by
+      have : (1 <<< 31) % 18446744073709551616 = 2 ^ 31 := by decide
+      omega
+    have hfill : fb.filled_size > 0 := by omega
+    simp only [vrTry, Gen.Verify.verify_macro_impl, hlim, decide_true, C09Gen.bindM_apply, Gen.Coding.FrameBuf.channels, C09Gen.req_apply, hsz,
+      ne_eq, not_false_eq_true, if_true, C09Gen.pureM_apply, Option.bind_some, hcn, hfill, and_self, hvs] at h
+    cases her : encode_frame s1 s2 s3 c fb 0 info log with
+    | none => simp [her] at h
+    | some r =>
+      obtain ⟨hp, hbs, hss, _⟩ := encode_frame_shape s1 s2 s3 c fb info log hst hfb hn hch hb hx hmax hmo hlog r her
+      rw [her] at h
+      simp only [Option.bind_some] at h
+      cases h
+      have hm : fb.filled_size % 65536 = fb.filled_size := Nat.mod_eq_of_lt (by omega)
+      obtain ⟨hbv, hbe⟩ := blockSize_fromSize_gen fb.filled_size hn.1 hn.2
+      -- the sub-frames are the model's: well-formed, with counts, small in sum
+      have hclen : (chansOf fb info.channels).length = info.channels := by simp [chansOf]
+      have hlen : ∀ cc ∈ chansOf fb info.channels, cc.length = fb.filled_size := by
+        intro cc hcc
+        simp only [chansOf, List.mem_map, List.mem_range] at hcc
+        obtain ⟨k, hk, rfl⟩ := hcc
+        exact chanOf_length fb info.channels k hfb hk
+      have hxs : ∀ cc ∈ chansOf fb info.channels, ∀ x ∈ cc, SubFrame.inRange info.bps x = true := by
+        intro cc hcc
+        simp only [chansOf, List.mem_map, List.mem_range] at hcc
+        obtain ⟨k, hk, rfl⟩ := hcc
+        exact hx k hk
+      have hwf := (Extras.encodeFrame_wf _ _ _ _ _ number fb.filled_size log lf f (by rw [hclen]; exact hch) hlen hn hb hxs
+        (by simpa [subCfgOf] using hmax) hlogok hef).1
+      obtain ⟨htot, hcnt⟩ := C09.C09_frame _ _ _ _ _ number fb.filled_size log lf f hn.1 hlen hef
+      have hsubs : f.subframes = r.1.subframes := by rw [← hfg]; rfl
+      have hs : ∀ s ∈ r.1.subframes, s.WF ∧ ∃ c, s.count = some c := by
+        intro s hs'
+        rw [← hsubs] at hs'
+        exact ⟨hwf s hs', hcnt s hs'⟩
+      have hsum : (r.1.subframes.map cnt).foldl (· + ·) 0 < 2 ^ 40 := by
+        rw [← hsubs]
+        have h40 : (2 : Nat) ^ 40 = 1099511627776 := by decide
+        have hv : verbatimBits fb.filled_size info.bps ≤ 8 + 65536 * 24 := by
+          unfold verbatimBits
+          have : fb.filled_size * info.bps ≤ 65536 * 24 := Nat.mul_le_mul (by omega) hb.2
+          omega
+        have : (chansOf fb info.channels).length * verbatimBits fb.filled_size info.bps ≤ 8 * (8 + 65536 * 24) :=
+          Nat.mul_le_mul (by rw [hclen]; exact hch.2) hv
+        unfold C09.subTotal at htot
+        omega
+      have hfn : number % 4294967296 < 2 ^ 32 := Nat.mod_lt _ (by decide)
+      refine ⟨hp, ?_, ?_, ?_, ⟨?_, ?_⟩, ?_⟩
+      · simpa [Gen.Verify.FrameHeader.set_frame_offset, Gen.Verify.FrameHeader.set_frame_number] using hfn
+      · simp [Gen.Verify.FrameHeader.set_frame_offset, Gen.Verify.FrameHeader.set_frame_number, hss]
+      · simp [Gen.Verify.FrameHeader.block_size, Gen.Verify.FrameHeader.set_frame_offset, Gen.Verify.FrameHeader.set_frame_number,
+          hbs, hm, hbv]
+      · simp [Gen.Verify.FrameHeader.block_size_exact, Gen.Verify.FrameHeader.set_frame_offset,
+          Gen.Verify.FrameHeader.set_frame_number, hbs, hm, hbv, hbe]
+      · exact (GenCount.frame_count_exact (g := withNumber r.1 number)
+          hp hs hsum).1
+      · have hcf : ∃ cf, f.count = some cf := by
+          obtain ⟨fbits, _, hc, _⟩ := C09_frame_bits _ _ _ _ _ number fb.filled_size log lf f (by rw [hclen]; exact hch)
+            hlen hn hb hxs (by omega) (by simpa [subCfgOf] using hmax) hlogok hef
+          exact ⟨_, hc⟩
+        obtain ⟨cf, hcf⟩ := hcf
+        rw [hfg, hcf]
+        rw [← hfg] at hcf
+        have := GenCount.frame_count_value (g := withNumber r.1 number) cf hp
+          (by simpa [withNumber, Gen.Verify.FrameHeader.set_frame_offset, Gen.Verify.FrameHeader.set_frame_number] using hfn)
+          (by simp [withNumber, Gen.Verify.FrameHeader.set_frame_offset, Gen.Verify.FrameHeader.set_frame_number, hss]) hs hsum hcf
+        exact congrArg some this.symm
+
+end shape
+
 /-! ### the driver on a contract-abiding source against the model's frame loop -/
 
 section contract
@@ -741,17 +940,6 @@ inductive Delivers {T : Type} (ops : SourceOps T) (bs ch bps : Nat) :
                             frame_count := fbc.2.frame_count + 1 } →
       GoodFb fbc'.1 b ch bps →
       Delivers ops bs ch bps src' fbc' rest srcf fbcf → Delivers ops bs ch bps src fbc (b :: rest) srcf fbcf
-
-/-- **NAMED HYPOTHESIS `EncoderFramesOk`** (true of the Rust code, not proved here): a frame returned by the generated
-`encode_fixed_size_frame` carries no precomputed bitstream, has a 32-bit frame number and a 64-bit sample number, a block-size
-code that is not reserved and stands for the buffer's `filled_size`, and its `count_bits` does not overflow `usize`
-(`Gen.Writer.Frame.count_bits_exact`).  C09G_encode_fixed_size_frame determines the frame only up to `C08Gen.frameOfGen`; these
-facts about the Rust-side value itself are what `update_frame_info` needs. -/
-def EncoderFramesOk (s1 : Nat → List (List Int)) (s2 : Nat → List Int) (s3 : Nat → Gen.Coding.FrameBuf) (c : Gen.Encoder) : Prop :=
-  ∀ (n : Nat) (fb : Gen.Coding.FrameBuf) (info : StreamInfo) (l l' : List OEvent) (g : Gen.Writer.Frame),
-    Gen.Coding.encode_fixed_size_frame verifySamples (s1 n) (s2 n) (s3 n) c fb n info l = some (some g, l') →
-    g.precomputed_bitstream = none ∧ g.header.frame_number < 2 ^ 32 ∧ g.header.start_sample_number < 2 ^ 64 ∧
-    Gen.Verify.FrameHeader.block_size g.header = fb.filled_size ∧ FrameFits g
 
 /-- the stream after `add_frame` for each frame of `gs`: STREAMINFO `foldInfo i gs`, the frames appended -/
 def streamAfter (st : Gen.Writer.Stream) (i : StreamInfo) (gs : List Gen.Writer.Frame) : Gen.Writer.Stream :=
@@ -786,28 +974,30 @@ theorem C03G_frames_contract {T : Type} (ops : SourceOps T) (s1 : Nat → List (
     (s3 : Nat → Gen.Coding.FrameBuf) (c : Gen.Encoder) (bs ch bps rate : Nat)
     (hst : ∀ n, C09Gen.StereoBuf (s3 n)) (hch : 1 ≤ ch ∧ ch ≤ 8) (hb : 1 ≤ bps ∧ bps ≤ 24)
     (hmax : c.subframe_coding.prc.max_parameter ≤ 14) (hmo : c.subframe_coding.fixed.max_order + 1 < 2 ^ 64)
-    (hrate : rate < 2 ^ 32) (hok : EncoderFramesOk s1 s2 s3 c)
+    (hrate : rate < 2 ^ 32)
     (src srcf : T) (fbc fbcf : Gen.Source.FrameBuf × Gen.Source.Context) (blocks : List (List (List Int)))
     (hd : Delivers ops bs ch bps src fbc blocks srcf fbcf) :
     ∀ (st : Gen.Writer.Stream) (i : StreamInfo) (log logf : List OEvent) (fs : List Frame),
       st.stream_info.data = .StreamInfo i → i.channels = ch → i.bps = bps → i.rate = rate →
       encodeFrames (subCfgOf c.subframe_coding) (stereoCfgOf c.stereo_coding) bps rate blocks fbc.2.frame_count log = some (fs, logf) →
-      C09Gen.LogFits log → fbc.2.frame_count + blocks.length < 2 ^ 31 → i.total + 65535 * blocks.length < 2 ^ 64 →
+      C09Gen.LogFits log → (∀ e ∈ log, e.Ok) → fbc.2.frame_count + blocks.length < 2 ^ 31 →
+      i.total + 65535 * blocks.length < 2 ^ 64 →
       ∃ gs : List Gen.Writer.Frame,
         Run ops s1 s2 s3 c bs (src, st, fbc) log (srcf, streamAfter st i gs, fbcf) logf gs ∧
         gs.map C08Gen.frameOfGen = fs ∧
         gs.map (fun g => Gen.Verify.FrameHeader.block_size g.header) = blocks.map (fun b => (b.headD []).length) ∧
-        (∀ g ∈ gs, g.precomputed_bitstream = none ∧ g.header.frame_number < 2 ^ 32 ∧ g.header.start_sample_number < 2 ^ 64 ∧ FrameFits g) := by
+        (∀ g ∈ gs, g.precomputed_bitstream = none ∧ g.header.frame_number < 2 ^ 32 ∧ g.header.start_sample_number < 2 ^ 64 ∧
+          FrameFits g ∧ (C08Gen.frameOfGen g).count = some (Gen.Writer.Frame.count_bits g)) := by
   induction hd with
   | done src src' fbc fbc' hr hctx =>
-    intro st i log logf fs hi _ _ _ henc _ _ _
+    intro st i log logf fs hi _ _ _ henc _ _ _ _
     simp only [encodeFrames, Option.some.injEq, Prod.mk.injEq] at henc
     obtain ⟨rfl, rfl⟩ := henc
     refine ⟨[], ?_, rfl, rfl, by simp⟩
     rw [stream_set_same st i hi]
     exact Run.stop _ _ _ _ _ _ hr
   | block src src' srcf fbc fbc' fbcf b rest k hr hk hkb hctx hgood _ ih =>
-    intro st i log logf fs hi hic hib hir henc hlog hnum htot
+    intro st i log logf fs hi hic hib hir henc hlog hlogok hnum htot
     have hlen : (b :: rest).length = rest.length + 1 := rfl
     rw [hlen] at hnum htot
     -- the model's step
@@ -846,7 +1036,10 @@ theorem C03G_frames_contract {T : Type} (ops : SourceOps T) (s1 : Nat → List (
           | none => simp at hog
           | some g =>
             simp only [Option.map_some, Option.some.injEq] at hog
-            obtain ⟨hp, hfn, hss, hbsz, hfit⟩ := hok _ _ _ _ _ _ hg
+            obtain ⟨hp, hfn, hss, hbsz, hfit, hcnt⟩ := C03G_encoder_frame_ok verifySamples (s1 fbc.2.frame_count)
+              (s2 fbc.2.frame_count) (s3 fbc.2.frame_count) c (fbToCoding fbc'.1) fbc.2.frame_count i log lg g (hst _)
+              (hic ▸ hgood.ok) hgood.fill (hic ▸ hch) (hib ▸ hb) (by rw [hic, hib]; exact hgood.range) hmax hmo (hir ▸ hrate) hlog
+              hlogok (by omega) (by rw [hic]; exact hgood.nch) (by rw [hib]; exact hgood.vs) hg
             have hm : Gen.Verify.FrameHeader.block_size g.header % 65536 < 65536 := Nat.mod_lt _ (by decide)
             have hu := C03G_update_frame_info i g hfit.1 hfit.2 (by omega)
             have hadd : Stream.add_frame st g = some (streamAfter st i [g]) := by
@@ -856,7 +1049,8 @@ theorem C03G_frames_contract {T : Type} (ops : SourceOps T) (s1 : Nat → List (
             obtain ⟨gs, hrun, hmap, hsz, hall⟩ := ih (streamAfter st i [g]) (foldInfo i [g]) lg l2 fs' rfl
               (by simpa [foldInfo_one, StreamInfo.addFrameCast] using hic)
               (by simpa [foldInfo_one, StreamInfo.addFrameCast] using hib) (by simpa [foldInfo_one, StreamInfo.addFrameCast] using hir)
-              (by rw [hfc]; exact hefs) (hlog.sub hsub) (by rw [hfc]; omega) (by rw [foldInfo_one]; omega)
+              (by rw [hfc]; exact hefs) (hlog.sub hsub) (fun e he => hlogok e (hsub e he)) (by rw [hfc]; omega)
+              (by rw [foldInfo_one]; omega)
             refine ⟨g :: gs, ?_, by simp [hog, hmap], ?_, ?_⟩
             · rw [streamAfter_cons]
               exact Run.step _ _ _ _ _ _ k _ g _ _ _ _ _ hr hk hnumc hex (by rw [hsi]; exact hg) hadd hrun
@@ -872,7 +1066,7 @@ theorem C03G_frames_contract {T : Type} (ops : SourceOps T) (s1 : Nat → List (
             · intro x hx
               simp only [List.mem_cons] at hx
               rcases hx with rfl | hx
-              · exact ⟨hp, hfn, hss, hfit⟩
+              · exact ⟨hp, hfn, hss, hfit, hcnt⟩
               · exact hall x hx
 
 
@@ -900,7 +1094,7 @@ theorem C03G_delivers_ctx {T : Type} (ops : SourceOps T) (bs ch bps : Nat) (src 
 over `blocks` succeeds with frames `fs` and remaining log `logf`.  Then the generated driver returns `Ok(stream)` with the same
 remaining log, where the stream's frames have exactly the model images `fs` (one per block, block sizes = block lengths) and its
 STREAMINFO is `finishInfo` of `foldInfo` (= `update_frame_info` per frame): block sizes `bs`, the digest of the little-endian
-bytes of all interleaved blocks, `len_hint` or else the number of samples delivered.  Hypothesis `EncoderFramesOk` is named. -/
+bytes of all interleaved blocks, `len_hint` or else the number of samples delivered. -/
 theorem C03G_driver_contract {T : Type} (ops : SourceOps T) (featPar : Bool) (par : Gen.Encoder → T → Nat → M (Option Gen.Writer.Stream))
     (md5f : List Nat → List Nat) (s1 : Nat → List (List Int)) (s2 : Nat → List Int) (s3 : Nat → Gen.Coding.FrameBuf)
     (c : Gen.Encoder) (src srcf : T) (bs : Nat) (log logf : List OEvent) (i0 : StreamInfo) (m0 : FlacVerif.FrameBuf)
@@ -910,15 +1104,15 @@ theorem C03G_driver_contract {T : Type} (ops : SourceOps T) (featPar : Bool) (pa
     (hfb : FlacVerif.FrameBuf.withSize (ops.channels src) bs = some m0)
     (hst : ∀ n, C09Gen.StereoBuf (s3 n)) (hb : 1 ≤ ops.bits_per_sample src ∧ ops.bits_per_sample src ≤ 24)
     (hmax : c.subframe_coding.prc.max_parameter ≤ 14) (hmo : c.subframe_coding.fixed.max_order + 1 < 2 ^ 64)
-    (hok : EncoderFramesOk s1 s2 s3 c)
     (hd : Delivers ops bs (ops.channels src) (ops.bits_per_sample src) src
       (C14Gen.ofModel m0 [], ⟨[], (ops.bits_per_sample src + 7) / 8, ops.channels src, 0, 0⟩) blocks srcf fbcf)
     (henc : encodeFrames (subCfgOf c.subframe_coding) (stereoCfgOf c.stereo_coding) (ops.bits_per_sample src) (ops.sample_rate src)
       blocks 0 log = some (fs, logf))
-    (hlog : C09Gen.LogFits log) (hnb : blocks.length < 2 ^ 31) (hlh : ops.len_hint srcf = some lh)
+    (hlog : C09Gen.LogFits log) (hlogok : ∀ e ∈ log, e.Ok) (hnb : blocks.length < 2 ^ 31) (hlh : ops.len_hint srcf = some lh)
     (hmd : ∀ l, (md5f l).length = 16) :
     ∃ gs : List Gen.Writer.Frame, gs.map C08Gen.frameOfGen = fs ∧
       gs.map (fun g => Gen.Verify.FrameHeader.block_size g.header) = blocks.map (fun b => (b.headD []).length) ∧
+      (∀ g ∈ gs, (C08Gen.frameOfGen g).count = some (Gen.Writer.Frame.count_bits g)) ∧
       ∀ fuel, blocks.length < fuel →
         encode_with_fixed_block_size featPar ops par md5f s1 s2 s3 fuel c src bs log =
           some (some ⟨⟨true, .StreamInfo (finishInfo (foldInfo { i0 with minBlock := bs, maxBlock := bs } gs) bs
@@ -935,15 +1129,15 @@ theorem C03G_driver_contract {T : Type} (ops : SourceOps T) (featPar : Bool) (pa
     split at hnew
     · rename_i h; omega
     · simp at hnew
-  obtain ⟨gs, hrun, hmap, hsz, hall⟩ := C03G_frames_contract ops s1 s2 s3 c bs _ _ _ hst hch hb hmax hmo hrate hok src srcf _ fbcf
+  obtain ⟨gs, hrun, hmap, hsz, hall⟩ := C03G_frames_contract ops s1 s2 s3 c bs _ _ _ hst hch hb hmax hmo hrate src srcf _ fbcf
     blocks hd ⟨⟨true, .StreamInfo { i0 with minBlock := bs, maxBlock := bs }⟩, [], []⟩ { i0 with minBlock := bs, maxBlock := bs }
-    log logf fs rfl (by subst hi0; rfl) (by subst hi0; rfl) (by subst hi0; rfl) henc hlog (by simpa using hnb)
+    log logf fs rfl (by subst hi0; rfl) (by subst hi0; rfl) (by subst hi0; rfl) henc hlog hlogok (by simpa using hnb)
     (by subst hi0; simp [StreamInfo.empty]; omega)
   obtain ⟨hmd5, hcnt, _, _, _⟩ := C03G_delivers_ctx ops bs _ _ src srcf _ fbcf blocks hd
   have hlen : gs.length = blocks.length := by
     have := congrArg List.length hsz
     simpa using this
-  refine ⟨gs, hmap, hsz, ?_⟩
+  refine ⟨gs, hmap, hsz, fun g hg => (hall g hg).2.2.2.2, ?_⟩
   intro fuel hf
   have hfm : ∀ (l : List Gen.Writer.Frame) (j : StreamInfo), (foldInfo j l).md5 = j.md5 := by
     intro l
@@ -955,6 +1149,78 @@ theorem C03G_driver_contract {T : Type} (ops : SourceOps T) (featPar : Bool) (pa
     fbcf.1 fbcf.2 lh gs hmt hnew hfb hrun rfl hlh (by rw [hfm, hmd]; subst hi0; simp [StreamInfo.empty]) fuel (by omega)
   rw [h, hmd5, hcnt]
   simp [streamAfter, Stream.stream_info_mut_set]
+
+
+/-- the hand-model image of a generated stream without further metadata blocks -/
+def streamImage (g : Gen.Writer.Stream) : Stream :=
+  ⟨Gen.Verify.Stream.stream_info g, [], g.frames.map C08Gen.frameOfGen⟩
+
+theorem mapM_frame_count (gs : List Gen.Writer.Frame)
+    (h : ∀ g ∈ gs, (C08Gen.frameOfGen g).count = some (Gen.Writer.Frame.count_bits g)) :
+    (gs.map C08Gen.frameOfGen).mapM Frame.count = some (gs.map Gen.Writer.Frame.count_bits) := by
+  induction gs with
+  | nil => rfl
+  | cons g gs ih =>
+    rw [List.map_cons, List.mapM_cons, h g (by simp), ih (fun x hx => h x (by simp [hx]))]
+    rfl
+
+/-- **the generated driver on a contract-abiding source = the model's `encodeStream`** (success direction: the model's frame
+loop returns): the source delivers `blocksOf bs chans`, and `len_hint` (or else the number of samples delivered) is the true
+length.  Same stream (image: STREAMINFO, no further metadata, the frames' images), same remaining log.  NOT covered: the
+failure direction (the generated driver panics / returns `Err` exactly where the model returns `none`). -/
+theorem C03G_driver_contract_model_success {T : Type} (ops : SourceOps T) (featPar : Bool)
+    (par : Gen.Encoder → T → Nat → M (Option Gen.Writer.Stream))
+    (md5f : List Nat → List Nat) (s1 : Nat → List (List Int)) (s2 : Nat → List Int) (s3 : Nat → Gen.Coding.FrameBuf)
+    (c : Gen.Encoder) (src srcf : T) (bs : Nat) (log logf : List OEvent) (i0 : StreamInfo) (m0 : FlacVerif.FrameBuf)
+    (fbcf : Gen.Source.FrameBuf × Gen.Source.Context) (lh : Option Nat) (chans : List (List Int)) (total : Nat) (fs : List Frame)
+    (hmt : c.multithread = false)
+    (hnew : FlacVerif.StreamInfo.new (ops.sample_rate src) (ops.channels src) (ops.bits_per_sample src) = some i0)
+    (hfb : FlacVerif.FrameBuf.withSize (ops.channels src) bs = some m0)
+    (hst : ∀ n, C09Gen.StereoBuf (s3 n)) (hb : 1 ≤ ops.bits_per_sample src ∧ ops.bits_per_sample src ≤ 24)
+    (hmax : c.subframe_coding.prc.max_parameter ≤ 14) (hmo : c.subframe_coding.fixed.max_order + 1 < 2 ^ 64)
+    (hcl : chans.length = ops.channels src) (hlen : ∀ cc ∈ chans, cc.length = total)
+    (hd : Delivers ops bs (ops.channels src) (ops.bits_per_sample src) src
+      (C14Gen.ofModel m0 [], ⟨[], (ops.bits_per_sample src + 7) / 8, ops.channels src, 0, 0⟩) (blocksOf bs chans) srcf fbcf)
+    (henc : encodeFrames (subCfgOf c.subframe_coding) (stereoCfgOf c.stereo_coding) (ops.bits_per_sample src) (ops.sample_rate src)
+      (blocksOf bs chans) 0 log = some (fs, logf))
+    (hlog : C09Gen.LogFits log) (hlogok : ∀ e ∈ log, e.Ok) (hnb : (blocksOf bs chans).length < 2 ^ 31)
+    (hlh : ops.len_hint srcf = some lh)
+    (htot : lh.getD (((blocksOf bs chans).map fun b => (b.headD []).length).sum) = (chans.headD []).length)
+    (hmd : ∀ l, (md5f l).length = 16) :
+    ∀ fuel, (blocksOf bs chans).length < fuel →
+      (encode_with_fixed_block_size featPar ops par md5f s1 s2 s3 fuel c src bs log).map (fun r => (r.1.map streamImage, r.2)) =
+        (encodeStream md5f (subCfgOf c.subframe_coding) (stereoCfgOf c.stereo_coding) bs chans (ops.bits_per_sample src)
+          (ops.sample_rate src) log).map (fun r => (some r.1, r.2)) := by
+  obtain ⟨_, hi0⟩ := streamInfo_new_bps _ _ _ _ hnew
+  have hbs := withSize_bs _ _ _ hfb
+  have hch1 : 1 ≤ chans.length := by
+    unfold FlacVerif.FrameBuf.withSize at hfb
+    split at hfb
+    · rename_i h; omega
+    · simp at hfb
+  have hbs1 : 1 ≤ bs := by
+    unfold verifyBlockSize at hbs; simp at hbs; omega
+  obtain ⟨gs, hmap, hsz, hall, hrun⟩ : ∃ gs : List Gen.Writer.Frame, gs.map C08Gen.frameOfGen = fs ∧
+      gs.map (fun g => Gen.Verify.FrameHeader.block_size g.header) = (blocksOf bs chans).map (fun b => (b.headD []).length) ∧
+      (∀ g ∈ gs, (C08Gen.frameOfGen g).count = some (Gen.Writer.Frame.count_bits g)) ∧
+      ∀ fuel, (blocksOf bs chans).length < fuel →
+        encode_with_fixed_block_size featPar ops par md5f s1 s2 s3 fuel c src bs log =
+          some (some ⟨⟨true, .StreamInfo (finishInfo (foldInfo { i0 with minBlock := bs, maxBlock := bs } gs) bs
+              (md5f (md5Input (ops.bits_per_sample src) ((blocksOf bs chans).flatMap Rfc.interleave)))
+              (lh.getD (((blocksOf bs chans).map fun b => (b.headD []).length).sum)))⟩, [], gs⟩, logf) := by
+    exact C03G_driver_contract ops featPar par md5f s1 s2 s3 c src srcf bs log logf i0 m0 fbcf lh
+      (blocksOf bs chans) fs hmt hnew hfb hst hb hmax hmo hd henc hlog hlogok hnb hlh hmd
+  intro fuel hf
+  rw [hrun fuel hf]
+  unfold encodeStream
+  simp only [henc, Option.bind_eq_bind, Option.bind_some, ← hmap, mapM_frame_count gs hall, Option.map_some]
+  rw [htot, Wrap.interleave_blocks bs chans total hbs1 hch1 hlen]
+  have hz : ((blocksOf bs chans).map fun b => (b.headD []).length).zip (gs.map Gen.Writer.Frame.count_bits) = gs.map sizeCount := by
+    rw [← hsz, List.zip_map']
+    rfl
+  rw [hz]
+  subst hi0
+  simp [streamImage, Gen.Verify.Stream.stream_info, assembleInfo, finishInfo, foldInfo, List.foldl_map, hcl, StreamInfo.empty]
 
 end contract
 
@@ -988,7 +1254,7 @@ example (featPar : Bool) (par : Gen.Encoder → Gen.Source.MemSource → Nat →
     ⟨List.replicate (32 * 2) 0, 32, 2, 0⟩ rfl (by decide) (by decide) (by decide)
 
 
-/-- the conclusion of the named hypothesis `EncoderFramesOk` on a concrete frame (stereo, 8 samples, LPC + constant sub-frame)
+/-- the conclusion of `C03G_encoder_frame_ok` (shape part) on a concrete frame (stereo, 8 samples, LPC + constant sub-frame)
 and a buffer with `filled_size = 8` -/
 example : C08Gen.exFrame.precomputed_bitstream = none ∧ C08Gen.exFrame.header.frame_number < 2 ^ 32 ∧
     C08Gen.exFrame.header.start_sample_number < 2 ^ 64 ∧
